@@ -12,13 +12,15 @@ EXTENDS Integers, Sequences, SequencesExt, FiniteSets, TLC, Json, MappingGrammar
 CONSTANTS MaxParams, EditParams
 
 E == <<195, 169>>
-MapLines == <<ClassAst(B("com.X"), B("x")), ClassAst(B("com.Lng"), B("ib.Long")), ClassAst(B("com.Other"), B("o"))>>
+\* (classes whose obfuscated name is a primitive KEYWORD: only object types are looked up, `I` stays `int`)
+MapLines == <<ClassAst(B("com.X"), B("x")), ClassAst(B("com.Lng"), B("ib.Long")), ClassAst(B("com.Other"), B("o")),
+              ClassAst(B("com.Widget"), B("int")), ClassAst(B("com.Sink"), B("void")), ClassAst(B("com.Lng2"), B("long"))>>
 RECURSIVE PrintLines(_)
 PrintLines(ls) == IF ls = <<>> THEN <<>> ELSE PrintAst(Head(ls)) \o <<10>> \o PrintLines(Tail(ls))
 MapSrc == PrintLines(MapLines)
 MapBlocks == Blocks([k \in 1..Len(MapLines) |-> Denotes(MapLines[k])])
 
-ParamTypes == {Prim(0, 73), Prim(0, 74), Obj(0, B("x")), Obj(0, B("I")), Obj(0, B("ib/Long")), Obj(2, E \o B("/b"))}
+ParamTypes == {Prim(0, 73), Prim(0, 74), Obj(0, B("x")), Obj(0, B("I")), Obj(0, B("ib/Long")), Obj(2, E \o B("/b")), Obj(1, B("int"))}
 RetTypes == {Prim(0, 86), Prim(0, 73), Prim(1, 74), Obj(0, B("x")), Obj(0, B("Long")), Obj(1, E \o B("/b"))}
 
 EditChars == {40, 41, 59, 76, 91, 73, 86, 120}    \* ( ) ; L [ I V x
